@@ -456,7 +456,9 @@ structure CrcSt (H : Type) where
 def crcRead {H ι} (upd : H → Bytes → H) (fin : H → UInt32)
     (innerRead : ι → Nat → Out Bytes × ι) (c : CrcSt H) (i : ι) (n : Nat) :
     Out Bytes × CrcSt H × ι :=
-  let invalidCheck : Bool := n ≠ 0 && fin c.hasher ≠ c.check && !c.ae2
+  -- `if buf.is_empty() { return Ok(0) }`: a zero-length read never reaches the inner reader
+  if n = 0 then (.ok [], c, i) else
+  let invalidCheck : Bool := fin c.hasher ≠ c.check && !c.ae2
   match innerRead i n with
   | (.ok bs, i') =>
     if bs.length = 0 ∧ invalidCheck = true then (.err (.io .other), c, i')
@@ -464,19 +466,103 @@ def crcRead {H ι} (upd : H → Bytes → H) (fin : H → UInt32)
   | (.err e, i') => (.err e, c, i')
   | (.panic m, i') => (.panic m, c, i')
 
-/-! ## A decompressor on top of the AES reader (what matters for authentication) -/
+/-! ## `ZipFile::read` of an AES entry: CRC layer ∘ decoder ∘ AES reader, and `finish_crypto` -/
 
-/-- A decoder (`flate2`, `bzip2`, `zstd` readers) refills its input buffer with `read(cap)` calls on
-the AES reader and stops asking as soon as the compressed stream seen so far is complete
-(`streamEnd`); it then reports end-of-file to its caller. Returns the bytes it pulled. -/
-def decoderPull {σ} (P : AesPrims) (S : Src σ) (streamEnd : Bytes → Bool) (cap : Nat) :
-    Nat → Valid σ → Bytes → Out Bytes × Valid σ
-  | 0, v, got => (.ok got, v)
-  | f + 1, v, got =>
-    if streamEnd got then (.ok got, v) else
-    match Valid.read P S v cap with
-    | (.ok bs, v') => if bs.isEmpty then (.ok got, v') else decoderPull P S streamEnd cap f v' (got ++ bs)
+/-- What the decoder sees from one `read` call on the reader below it. -/
+inductive InnerRes
+  | ok (bs : Bytes)
+  | err (e : ZErr)
+
+/-- One `read(buf)` call of a decompressor (`flate2`, `bzip2`, `zstd` readers), as an *arbitrary*
+strategy: finish the call with a result and a new state, or call `read` on the AES reader with a
+buffer of `k` bytes and continue depending on what came back. Any number of pulls of any sizes, any
+returned bytes, an early end-of-file, spurious errors: everything is allowed. -/
+inductive DecStep (δ : Type)
+  | done (r : Out Bytes) (d : δ)
+  | pull (k : Nat) (cont : InnerRes → DecStep δ)
+
+structure Decoder (δ : Type) where
+  read : δ → Nat → DecStep δ
+
+/-- The only assumption ever made about a decoder: an error of the reader below ends the decoder's
+own `read` call with an error (what `let input = obj.fill_buf()?;` does in all three crates). -/
+inductive DecStep.Faithful {δ : Type} : DecStep δ → Prop
+  | done (r : Out Bytes) (d : δ) : DecStep.Faithful (.done r d)
+  | pull (k : Nat) (cont : InnerRes → DecStep δ)
+      (herr : ∀ e, ∃ e' d, cont (.err e) = .done (.err e') d)
+      (hok : ∀ bs, DecStep.Faithful (cont (.ok bs))) : DecStep.Faithful (.pull k cont)
+
+def Decoder.Faithful {δ} (D : Decoder δ) : Prop := ∀ d n, (D.read d n).Faithful
+
+/-- `Stored`: no decoder, the CRC layer sits directly on the crypto reader. -/
+def storedDec : Decoder Unit :=
+  ⟨fun _ n => .pull n fun r => .done (match r with | .ok bs => .ok bs | .err e => .err e) ()⟩
+
+/-- Run one decoder call against the AES reader (a panic below unwinds through the decoder). -/
+def runDec {σ δ} (P : AesPrims) (S : Src σ) (d0 : δ) : DecStep δ → Valid σ → Out Bytes × δ × Valid σ
+  | .done r d, v => (r, d, v)
+  | .pull k cont, v =>
+    match Valid.read P S v k with
+    | (.ok bs, v') => runDec P S d0 (cont (.ok bs)) v'
+    | (.err e, v') => runDec P S d0 (cont (.err e)) v'
+    | (.panic m, v') => (.panic m, d0, v')
+
+/-- `io::copy(reader, &mut io::sink())`: `read` with the 8 KiB stack buffer until `Ok(0)` or `Err`.
+Fuel `data_remaining + 1` suffices (every successful call makes progress, `copyToSink_spec`). -/
+def copyToSink {σ} (P : AesPrims) (S : Src σ) : Nat → Valid σ → Out Unit × Valid σ
+  | 0, v => (.panic "unreachable: fuel", v)
+  | f + 1, v =>
+    match Valid.read P S v 8192 with
+    | (.ok bs, v') => if bs.isEmpty then (.ok (), v') else copyToSink P S f v'
     | (.err e, v') => (.err e, v')
     | (.panic m, v') => (.panic m, v')
+
+/-- `ZipFileReader::finish_crypto`: for `Deflated` / `Bzip2` / `Zstd` over `CryptoReader::Aes` read the
+rest of the ciphertext; `Stored`: nothing (the decoder's end-of-stream is the ciphertext's). -/
+def finishCrypto {σ} (P : AesPrims) (S : Src σ) (compressing : Bool) (v : Valid σ) : Out Unit × Valid σ :=
+  if compressing then copyToSink P S (v.dataRemaining + 1) v else (.ok (), v)
+
+structure EntrySt (σ δ H : Type) where
+  dec : δ
+  aes : Valid σ
+  crc : CrcSt H
+
+/-- `ZipFileReader::read`: `Crc32Reader` over the decoder over the AES reader. -/
+def layersRead {σ δ H} (P : AesPrims) (S : Src σ) (D : Decoder δ) (upd : H → Bytes → H) (fin : H → UInt32)
+    (st : EntrySt σ δ H) (n : Nat) : Out Bytes × EntrySt σ δ H :=
+  match crcRead upd fin
+      (fun (i : δ × Valid σ) k => runDec P S i.1 (D.read i.1 k) i.2) st.crc (st.dec, st.aes) n with
+  | (r, c, (d, v)) => (r, ⟨d, v, c⟩)
+
+/-- `ZipFile::read` as it was before the fix of D12: the decoder's end-of-file is the entry's. -/
+def entryReadPreFix {σ δ H} (P : AesPrims) (S : Src σ) (D : Decoder δ) (upd : H → Bytes → H)
+    (fin : H → UInt32) (st : EntrySt σ δ H) (n : Nat) : Out Bytes × EntrySt σ δ H :=
+  layersRead P S D upd fin st n
+
+/-- `ZipFile::read` (current code): `let count = self.get_reader().read(buf)?;
+if count == 0 && !buf.is_empty() { self.reader.finish_crypto()?; } Ok(count)`. -/
+def entryRead {σ δ H} (P : AesPrims) (S : Src σ) (D : Decoder δ) (compressing : Bool)
+    (upd : H → Bytes → H) (fin : H → UInt32) (st : EntrySt σ δ H) (n : Nat) :
+    Out Bytes × EntrySt σ δ H :=
+  match layersRead P S D upd fin st n with
+  | (.ok bs, st') =>
+    if bs.length = 0 ∧ n ≠ 0 then
+      match finishCrypto P S compressing st'.aes with
+      | (.ok _, v') => (.ok bs, { st' with aes := v' })
+      | (.err e, v') => (.err e, { st' with aes := v' })
+      | (.panic m, v') => (.panic m, { st' with aes := v' })
+    else (.ok bs, st')
+  | (.err e, st') => (.err e, st')
+  | (.panic m, st') => (.panic m, st')
+
+/-- A caller of `ZipFile::read`: one call per buffer size, stop at the first error. -/
+def entryDrain {σ δ H} (P : AesPrims) (S : Src σ) (D : Decoder δ) (compressing : Bool)
+    (upd : H → Bytes → H) (fin : H → UInt32) : List Nat → EntrySt σ δ H → Bytes → Out Bytes × EntrySt σ δ H
+  | [], st, acc => (.ok acc, st)
+  | n :: ns, st, acc =>
+    match entryRead P S D compressing upd fin st n with
+    | (.ok out, st') => entryDrain P S D compressing upd fin ns st' (acc ++ out)
+    | (.err e, st') => (.err e, st')
+    | (.panic m, st') => (.panic m, st')
 
 end ZipVerif.Model.Aes
